@@ -835,7 +835,7 @@ class Interp:
             if isinstance(recv, Obj):
                 xa = [to_poly(self.eval(a)) for a in e.args]
                 return fn(f.attr, Poly.atom(recv.name), *xa)
-            if isinstance(recv, Poly) and f.attr in ("detach", "numpy", "clone", "cpu", "item", "copy"):
+            if isinstance(recv, (Poly, list)) and f.attr in ("detach", "numpy", "clone", "cpu", "item", "copy", "tolist", "astype", "flatten"):
                 return recv
             if isinstance(recv, (set, list)) and f.attr in ("add", "pop", "append", "extend", "index", "count", "copy", "update", "discard"):
                 return getattr(recv, f.attr)(*[self.eval(a) for a in e.args])
